@@ -24,6 +24,9 @@ Max(a, b) == IF a > b THEN a ELSE b
 SatSub(a, b) == IF a > b THEN a - b ELSE 0
 CapAdd1(a) == Min(a + 1, Caps.age)      \* saturating_add(1) of history ages / idle ticks, abstracted cap (DESIGN 4.3)
 SinceAdd1(a) == Min(a + 1, Caps.since)  \* saturating_add(1) of `since` / `ticks` (65535 = the real u16 saturation)
+\* u16::MAX for the *unchecked* additions (C02 panic sites); the C02 capacity instances scale it down via Caps.u16max
+U16Max == IF "u16max" \in DOMAIN Caps THEN Caps.u16max ELSE 65535
+KeysInRow == 767   \* src: parser/src/layers.rs:12 KEYS_IN_ROW (length of a layer row and of src_keys)
 
 \* ----- generic sequence helpers -------------------------------------------------
 FilterSeq(s, P(_)) == SelectSeq(s, P)
@@ -252,16 +255,17 @@ HandleHoldTap(w, queue) ==
        ELSE IF w1.timeout = 0 /\ ~skipTimeout THEN [w |-> w1, res |-> "timeout"]
        ELSE [w |-> w1, res |-> "none"]
 
-\* src: evict_same_coord_events 568-582
-RECURSIVE EvictSameCoord(_, _, _)
-EvictSameCoord(w, queue, relToRemove) ==
+\* src: evict_same_coord_events: only the counted presses (and their releases) are evicted
+RECURSIVE EvictSameCoord(_, _, _, _)
+EvictSameCoord(w, queue, relToRemove, prToRemove) ==
   IF queue = <<>> THEN <<>>
   ELSE LET q == Head(queue) IN
        IF IsCorrRelease(w, q)
-       THEN IF relToRemove > 0 THEN EvictSameCoord(w, Tail(queue), relToRemove - 1)
-            ELSE <<q>> \o EvictSameCoord(w, Tail(queue), 0)
-       ELSE IF IsCorrPress(w, q) THEN EvictSameCoord(w, Tail(queue), relToRemove)
-       ELSE <<q>> \o EvictSameCoord(w, Tail(queue), relToRemove)
+       THEN IF relToRemove > 0 THEN EvictSameCoord(w, Tail(queue), relToRemove - 1, prToRemove)
+            ELSE <<q>> \o EvictSameCoord(w, Tail(queue), 0, prToRemove)
+       ELSE IF IsCorrPress(w, q) /\ (prToRemove > 0 \/ Bug = "td_evict_all")
+       THEN EvictSameCoord(w, Tail(queue), relToRemove, IF prToRemove > 0 THEN prToRemove - 1 ELSE 0)
+       ELSE <<q>> \o EvictSameCoord(w, Tail(queue), relToRemove, prToRemove)
 
 \* try_fold 589-597: returns [n, err]
 RECURSIVE TdFold(_, _, _)
@@ -276,10 +280,10 @@ TdFold(w, queue, n) ==
 HandleTapDance(w, numTaps, maxTaps, queue) ==
   IF Len(queue) = w.pql /\ w.timeout > 0 THEN [queue |-> queue, res |-> "none", ntaps |-> numTaps]
   ELSE IF w.timeout = 0
-  THEN [queue |-> EvictSameCoord(w, queue, SatSub(numTaps, 1)), res |-> "tap", ntaps |-> numTaps]
+  THEN [queue |-> EvictSameCoord(w, queue, SatSub(numTaps, 1), SatSub(numTaps, 1)), res |-> "tap", ntaps |-> numTaps]
   ELSE LET f == TdFold(w, queue, 1) IN
        IF f.err \/ f.n >= maxTaps
-       THEN [queue |-> EvictSameCoord(w, queue, SatSub(f.n, 1)), res |-> "tap", ntaps |-> f.n]
+       THEN [queue |-> EvictSameCoord(w, queue, SatSub(f.n, 1), SatSub(f.n, 1)), res |-> "tap", ntaps |-> f.n]
        ELSE [queue |-> queue, res |-> "none", ntaps |-> f.n]
 
 \* ---- chords v1: handle_chord 610-708 -----------------------------------------------
@@ -404,7 +408,12 @@ TickWt(w0, queue, aq) ==
              idx == IF Bug = "td_off_by_one" THEN Min(r.ntaps, Len(a.acs) - 1) ELSE SatSub(Min(r.ntaps, Len(a.acs)), 1)
              w2 == IF r.res # "none" THEN [w1 EXCEPT !.tap = a.acs[idx + 1]] ELSE w1
              w3 == IF r.ntaps > w.ntaps THEN [w2 EXCEPT !.timeout = a.timeout] ELSE w2
-         IN [w |-> [w3 EXCEPT !.ntaps = r.ntaps], queue |-> r.queue, aq |-> aq, res |-> r.res,
+         IN \* src: layout.rs:478 `self.tap = tds.actions[idx]` - the parser accepts (tap-dance n ()): index 0 of len 0
+            IF r.res # "none" /\ a.acs = <<>>
+            THEN [w |-> w1, queue |-> r.queue, aq |-> aq, res |-> "panic:index:tap-dance.actions[idx]",
+                  pq |-> <<>>, somepq |-> FALSE]
+            ELSE
+            [w |-> [w3 EXCEPT !.ntaps = r.ntaps], queue |-> r.queue, aq |-> aq, res |-> r.res,
              pq |-> <<>>, somepq |-> FALSE]
     [] w.k = "ch" ->
          LET r == HandleChord(w, queue, aq) IN
@@ -441,6 +450,27 @@ RECURSIVE DoActionSeq(_, _, _, _, _, _, _, _)
 RECURSIVE Dequeue(_, _)
 RECURSIVE WaitingIntoHold(_, _)
 RECURSIVE EventL(_, _)
+
+\* src: layout.rs:1645 `if let Some(ac) = self.rpt_action { self.do_action(ac, ..) }` - when `ac` is a multi / fork
+\* that reaches Action::Repeat before any arm has overwritten rpt_action (multi sets it only after its loop, fork
+\* after its branch; layer / tap-hold / tap-dance / chords / switch arms never set it) the recursion does not
+\* terminate: stack overflow (C02 finding).  RptLoops(aid, states): executing aid with rpt_action = aid loops.
+RptKeepsRpt(t) == t \in {"layer", "deflayer", "holdtap", "tapdance", "chords", "switch"}
+RECURSIVE RptReachesRepeat(_, _)
+RECURSIVE RptSeqReachesRepeat(_, _)
+RptReachesRepeat(aid, states) ==
+  LET a == ActRec(aid) IN
+  CASE a.t = "repeat" -> TRUE
+    [] a.t = "multi" -> RptSeqReachesRepeat(a.acs, states)
+    [] a.t = "fork" ->
+         LET right == \E i \in DOMAIN states : states[i].t \in {"nk", "fk"} /\ Contains(a.trig, states[i].a)
+         IN RptReachesRepeat(IF right THEN a.right ELSE a.left, states)
+    [] OTHER -> FALSE
+RptSeqReachesRepeat(acs, states) ==
+  IF acs = <<>> THEN FALSE
+  ELSE IF RptReachesRepeat(Head(acs), states) THEN TRUE
+  ELSE IF RptKeepsRpt(ActRec(Head(acs)).t) THEN RptSeqReachesRepeat(Tail(acs), states)
+  ELSE FALSE
 
 \* KeyCode / MultipleKeyCodes arms share the rpt buffer logic (1790-1812, 1837-1861)
 KeysArm(L0, kcs, flags, selfRpt, x, y, isOs) ==
@@ -479,6 +509,8 @@ DoAction(L00, aid0, dynk, x, y, delay, isOs, stack0) ==
          [L |-> DoAction(L0, SrcAct(y), <<>>, x, y, delay, isOs, <<>>).L, ce |-> NoCe]
     [] a.t = "repeat" ->
          IF L0.rpt.id = -9 THEN [L |-> L0, ce |-> NoCe]
+         ELSE IF L0.rpt.id > 0 /\ RptReachesRepeat(L0.rpt.id, L0.states)
+         THEN [L |-> Panic(L0, "stack-overflow:repeat"), ce |-> NoCe]
          ELSE [L |-> DoAction(L0, L0.rpt.id, L0.rpt.kcs, x, y, delay, isOs, <<>>).L, ce |-> NoCe]
     [] a.t = "holdtap" ->
          IF a.thi = 0 \/ <<x, y>> # L0.lpc \/ L0.lpt = 0
@@ -594,6 +626,8 @@ Dequeue(L, q) ==
                  ELSE r1
        IN [L |-> [L1 EXCEPT !.states = r2.states], ce |-> r2.ce]
   ELSE IF TransOrderPanics(L) THEN [L |-> Panic(L, "heapless:layer_stack"), ce |-> NoCe]
+  \* src: layout.rs:1566-1570 the asserts use `<=`; `self.layers[layer][x][y]` with y = 767 is out of bounds
+  ELSE IF q.y >= KeysInRow THEN [L |-> Panic(L, "index:layers[l][x][y]"), ce |-> NoCe]
   ELSE LET stack == TransOrder(L) IN
        IF L.tde # <<>>
        THEN LET tde == L.tde[1]
@@ -614,6 +648,8 @@ GetWaiting(L, idx) == IF idx < 0 THEN L.waiting
 RemoveWaiting(L, idx) == IF idx < 0 THEN [L EXCEPT !.waiting = <<>>]
                          ELSE [L EXCEPT !.extra = RemoveAt(@, idx + 1)]
 WDelay(w) == IF w.k = "td" THEN 0 ELSE w.delay + w.ticks
+\* src: layout.rs:1131,1161,1191 `w.delay + w.ticks` - unchecked u16 addition (delay = saturated queue age)
+WDelayOverflows(w) == w.k # "td" /\ w.delay + w.ticks > U16Max
 
 WaitingIntoHold(L, idx) ==
   LET ws == GetWaiting(L, idx) IN
@@ -622,7 +658,8 @@ WaitingIntoHold(L, idx) ==
            L1 == RemoveWaiting(L, idx)
            L2 == IF <<w.x, w.y>> = L1.lpc THEN [L1 EXCEPT !.lpt = 0] ELSE L1
            L3 == [L2 EXCEPT !.os.pticks = L2.os.pdelay]
-       IN DoAction(L3, w.hold, <<>>, w.x, w.y, WDelay(w), FALSE, w.stack)
+       IN IF WDelayOverflows(w) THEN [L |-> Panic(L, "add-overflow:waiting.delay+ticks"), ce |-> NoCe]
+          ELSE DoAction(L3, w.hold, <<>>, w.x, w.y, WDelay(w), FALSE, w.stack)
 
 RECURSIVE DoOnCoords(_, _, _, _, _)
 DoOnCoords(L, aid, coords, delay, stack) ==
@@ -640,7 +677,7 @@ WaitingIntoTap(L, pq, somepq, idx) ==
   LET ws == GetWaiting(L, idx) IN
   IF ws = <<>> THEN [L |-> L, ce |-> NoCe]
   ELSE LET w == ws[1]
-           L1 == RemoveWaiting(L, idx)
+           L1 == IF WDelayOverflows(w) THEN Panic(L, "add-overflow:waiting.delay+ticks") ELSE RemoveWaiting(L, idx)
            delay == WDelay(w)
            r == DoAction(L1, w.tap, <<>>, w.x, w.y, delay, FALSE, w.stack)
            tapRec == ActRec(w.tap)
@@ -657,7 +694,8 @@ WaitingIntoTimeout(L, idx) ==
   ELSE LET w == ws[1]
            L1 == RemoveWaiting(L, idx)
            L2 == IF <<w.x, w.y>> = L1.lpc THEN [L1 EXCEPT !.lpt = 0] ELSE L1
-       IN DoAction(L2, w.toa, <<>>, w.x, w.y, WDelay(w), FALSE, w.stack)
+       IN IF WDelayOverflows(w) THEN [L |-> Panic(L, "add-overflow:waiting.delay+ticks"), ce |-> NoCe]
+          ELSE DoAction(L2, w.toa, <<>>, w.x, w.y, WDelay(w), FALSE, w.stack)
 
 \* ----- Layout::event (1541-1555), without chords v2 ------------------------------------
 RECURSIVE ForceHolds(_, _)
@@ -729,6 +767,8 @@ ProcessExtraWaitings(L, ce) ==
               [] r.res = "tap" -> WaitingIntoTap(e.L, r.pq, r.somepq, e.i)
               [] r.res = "timeout" -> WaitingIntoTimeout(e.L, e.i)
               [] r.res = "noop" -> [L |-> [e.L EXCEPT !.waiting = <<>>], ce |-> NoCe]
+              [] r.res = "panic:index:tap-dance.actions[idx]" ->
+                   [L |-> Panic(e.L, "index:tap-dance.actions[idx]"), ce |-> NoCe]
 
 \* ----- process_sequence_custom (1468-1492) ------------------------------------------------
 ProcessSeqCustom(L, ce) ==
@@ -768,6 +808,8 @@ TickMain(L0) ==     \* everything after the action-queue early return
                       [] t.res = "tap" -> WaitingIntoTap(Lw, t.pq, t.somepq, 0 - 1)
                       [] t.res = "timeout" -> WaitingIntoTimeout(Lw, 0 - 1)
                       [] t.res = "noop" -> [L |-> [Lw EXCEPT !.waiting = <<>>], ce |-> NoCe]
+                      [] t.res = "panic:index:tap-dance.actions[idx]" ->
+                           [L |-> Panic(Lw, "index:tap-dance.actions[idx]"), ce |-> NoCe]
                       [] OTHER -> [L |-> Lw, ce |-> NoCe]
             ELSE IF L6.extra = <<>>
             THEN IF L6.os.pticks > 0 THEN [L |-> [L6 EXCEPT !.os.pticks = @ - 1], ce |-> NoCe]
